@@ -19,6 +19,9 @@ def scratch_copy():
     return d
 
 
+LAST_SIGNATURES = []
+
+
 def run_check(pid, root, tier='quick', jobs=8, timeout=1800):
     ev = tempfile.mkdtemp(prefix='vf_ev.', dir='/var/tmp')
     env = dict(os.environ, VERIF_REPO=root, VF_EVIDENCE_DIR=ev, VF_REPLAY_DIR=ev, PYVC_JOBS=str(jobs), VF_JOBS=str(jobs),
@@ -27,6 +30,15 @@ def run_check(pid, root, tier='quick', jobs=8, timeout=1800):
         p = subprocess.run([os.path.join(core.VERIF, 'check'), pid, '--tier', tier], env=env, capture_output=True,
                            text=True, timeout=timeout)
         lines = [l for l in p.stdout.splitlines() if l.startswith(('VIOLATION', 'KNOWN-FINDING', 'UNDECIDED', 'CHECKER'))]
+        sigs = []
+        rd = os.path.join(ev, pid)
+        if os.path.isdir(rd):
+            for fn in sorted(os.listdir(rd)):
+                try:
+                    sigs.append(json.load(open(os.path.join(rd, fn))).get('signature'))
+                except Exception:
+                    pass
+        LAST_SIGNATURES[:] = sigs
         return p.returncode, lines[:6]
     except subprocess.TimeoutExpired:
         return 124, ['timeout']
